@@ -1,4 +1,3 @@
 package main
 
 func runC35(c *C) {}
-func runC38(c *C) {}
